@@ -52,6 +52,7 @@ class SDict:
         self.rlog = []
         if init is not None:
             self.update(init)
+            self.wlog = []
         for k, v in kw.items():
             self._set(k, v, log=False)
 
